@@ -4,7 +4,7 @@
 
 static std::vector<Prop> props() {
     return {
-        Prop("hist_block", run_history<KBlock>, 1000, 10000, 100, 25, {1}, 2, 8),
+        Prop("hist_block", run_history<KBlock>, 1000, 10000, 100, 10, {1}, 2, 8),
     };
 }
 static std::vector<Enum> enums() { return {}; }
